@@ -133,6 +133,7 @@ func TestC06(t *testing.T) {
 		"writers: frame.Writer.WriteMessage(OutKey), streamwriter.Writer(Key), Node(OutKey): flag, link id, timestamp inside a before/after clock sandwich, signature = SHA-256 over the wire image; " +
 		"Node(InKey): only authenticated frames surface as EventFrame. distinct = distinct streams / emitted frames")
 	rep.RuleAdd("Rounds 12-15: the signing clock stepped backwards six times (hook VerifShiftSignatureClock); every pair of signature bytes altered by the same mask.")
+	rep.RuleAdd("Rounds 16-17: stream writers on frame writers that carry signing options of their own; a frame writer whose version is switched from v1 to v2 after Initialize.")
 	rep.Assume("crypto/sha256 is the trusted base; the reference hashes the wire image, the implementation hashes field by field")
 	seed := vh.Seed()
 	all := shippedOrViolation(rep, t)
